@@ -6,8 +6,10 @@
 //!    rounded up to 1 ns (timer resolution) because the simulated clock stands still while the
 //!    worker runs, so `delay(0)` in the worker loop would spin forever; every delay is logged
 //!    with the ORIGINALLY requested value (time of request, ns);
-//!  * with `cfg trace=1` every op result is followed by ` #t:ns,t:ns,...` = the delays the
-//!    code requested from the timer during this op (one per worker-loop iteration);
+//!  * with `cfg trace=1` every op result is followed by ` #t:ns,t:ns,... #n:last,... #n:last,...`:
+//!    the delays the code requested from the timer during this op (one per worker-loop
+//!    iteration), then per writer / per reader the number of deadline-missed listener calls
+//!    during the op and the total_count of the last one;
 //!  * W/R accept lis=1 (recording listener for OFFERED/REQUESTED_DEADLINE_MISSED);
 //!  * new ops:  odm <w> (get_offered_deadline_missed_status -> total change)
 //!              lw <w> | lr <r>  (listener calls: n then time:total:change ...)
@@ -254,6 +256,8 @@ struct World {
     trace: bool,
     wlogs: Vec<StatusLog>,
     rlogs: Vec<StatusLog>,
+    wmarks: Vec<usize>,
+    rmarks: Vec<usize>,
 }
 
 const BUDGET: i64 = 2_000_000_000;
@@ -688,6 +692,8 @@ fn run_scenario(line: &str) -> String {
         trace: false,
         wlogs: vec![],
         rlogs: vec![],
+        wmarks: vec![],
+        rmarks: vec![],
     };
     let mut out = vec![];
     for op in line.split(';') {
@@ -697,10 +703,26 @@ fn run_scenario(line: &str) -> String {
         }
         let mut r = w.op(op);
         if w.trace {
+            w.sim.settle();
             let d = w.dlog.lock().unwrap();
             let items: Vec<String> = d[w.dmark..].iter().map(|(t, ns)| format!("{}:{}", t, ns)).collect();
             w.dmark = d.len();
             r += &format!(" #{}", items.join(","));
+            // listener calls during this op, per writer and per reader: n:last_total
+            for (logs, marks) in [(&w.wlogs, &mut w.wmarks), (&w.rlogs, &mut w.rmarks)] {
+                let mut v = vec![];
+                for (i, l) in logs.iter().enumerate() {
+                    let l = l.lock().unwrap();
+                    if marks.len() <= i {
+                        marks.push(0);
+                    }
+                    let n = l.len() - marks[i];
+                    let last = if n > 0 { l[l.len() - 1].1 } else { 0 };
+                    marks[i] = l.len();
+                    v.push(format!("{}:{}", n, last));
+                }
+                r += &format!(" #{}", v.join(","));
+            }
         }
         out.push(r);
     }
